@@ -1,5 +1,56 @@
-(* C01 -- placeholder while the proofs are being written *)
-From Coq Require Import ZArith List.
-From L60870 Require Import Asdu.Layout Asdu.Codec gen.AsduTable.
-Theorem C01_table_nonempty : table <> nil.
-Proof. discriminate. Qed.
+(* C01 -- ASDU / information-object codec round-trips for every type and layout.
+   Model: Asdu/Codec.v; an information object is (address, body) with the body the octets behind the address.
+   Field-level normalisation (constructor arguments -> body, body -> getter values) is outside the Coq model: it is
+   decided on the implementation by the reference encoder of the oracle (pylib/props/asdu_spec.py) and, for time tags,
+   counters and scaled/normalised values, by C19. *)
+From Coq Require Import ZArith List Bool.
+From L60870 Require Import Asdu.Layout Asdu.Codec Asdu.CodecProofs gen.AsduTable gen.AsduKnown.
+Import ListNotations.
+Local Open Scope Z_scope.
+
+(* PARTIAL (composition over element lists not yet proved in Coq): what is proved is
+   (1) every accepted addition appends exactly enc_bytes of the object (C12_append, for every row with enc_okb), so the payload of a built
+       ASDU is the concatenation of the objects' encodings;
+   (2) decoding at the place of an encoding returns the object, for both layouts, every address size, any surrounding octets (below);
+   (3) getElementEx reads element idx at the standard's offset with the standard's length (C02_decodes_exact_octets / spec_element).
+   Missing: the lemma that offset idx*(IOA+n) into a concatenation of idx+1.. chunks of equal length is the idx-th chunk, and the
+   resulting statement `get_element (header ++ concat encodings) idx = nth idx objects`; that composition is exercised on the
+   implementation AND on the extracted model by every script of this check (counts 1, 2, K-1, K, up to 127). *)
+Theorem C01_roundtrip_partial : forall a sq o n pre post,
+  ioa_ok a -> addr_ok a (io_addr o) -> len (io_body o) = n ->
+  dec_spec a (pre ++ enc_bytes a sq o ++ post) (len pre) (negb sq) n =
+    Some {| io_addr := if sq then 0 else io_addr o; io_body := io_body o |}.
+Proof. exact obj_roundtrip. Qed.
+
+(* the encoder of a row with enc_okb produces exactly enc_bytes (address little-endian unless sequence element, then the body) or refuses *)
+Theorem C01_encoder_exact : forall e a sq used o n,
+  enc_okb e n = true -> len (io_body o) = n -> ioa_ok a -> 0 <= used -> max_asdu a <= 256 ->
+  enc_io e a sq used o = if max_asdu a - used <? enc_size a sq n then Ok None else Ok (Some (enc_bytes a sq o)).
+Proof. exact enc_io_spec. Qed.
+
+(* the decoder of a row with dec_okb returns exactly dec_spec *)
+Theorem C01_decoder_exact : forall d a m start sq n,
+  dec_okb d n = true -> ioa_ok a -> 0 <= start ->
+  dec_io d a m start sq = Ok (dec_spec a m start (negb (dec_sqp d && sq)) n).
+Proof. exact dec_io_spec. Qed.
+
+(* per run: every row regenerated from the working tree agrees with the standard in all three places *)
+Theorem C01_current : forall r, In r table -> ~ In (tid r) known_C01 -> row_c01_okb r = true.
+Proof. apply rows_okb_sound. vm_compute. reflexivity. Qed.
+
+(* the set of type identifications handled by getElementEx is exactly the supported list (a deleted or added `case` is caught),
+   and SQ = 1 is offered wherever the standard defines it *)
+Theorem C01_types_complete : map tid table = std_supported.
+Proof. vm_compute. reflexivity. Qed.
+Theorem C01_sq_offered : forall r, In r table -> std_sq_ok (tid r) = true -> exists a b c d, r_elem r = ESeq a b c d.
+Proof.
+  assert (H : forallb (fun r => negb (std_sq_ok (tid r)) || match r_elem r with ESeq _ _ _ _ => true | _ => false end) table = true) by (vm_compute; reflexivity).
+  rewrite forallb_forall in H. intros r Hr Hs. specialize (H r Hr). rewrite Hs in H. cbn in H.
+  destruct (r_elem r); try discriminate. eexists; eexists; eexists; eexists; reflexivity.
+Qed.
+
+Example C01_inhabited :
+  dec_spec {| cot_sz := 2; ca_sz := 2; ioa_sz := 3; max_asdu := 249 |}
+           ([9; 9] ++ enc_bytes {| cot_sz := 2; ca_sz := 2; ioa_sz := 3; max_asdu := 249 |} false {| io_addr := 70000; io_body := [1; 2; 3] |} ++ [7]) 2 true 3
+  = Some {| io_addr := 70000; io_body := [1; 2; 3] |}.
+Proof. vm_compute. reflexivity. Qed.
